@@ -68,6 +68,8 @@ type strN struct {
 	S string
 	N int
 }
+type ptrBox struct{ P *int }
+
 type myStringer int
 
 func (m myStringer) String() string { return fmt.Sprint(int(m)) }
@@ -112,7 +114,10 @@ func anyPool() []any {
 		pad{1, 2}, padWithGarbage(1, 2, 0xAA), padWithGarbage(1, 2, 0x55), strN{"x", 1}, strN{strFrom("x"), 1},
 		nested{pad{1, 2}, "q", 0}, nested{padWithGarbage(1, 2, 0xFF), strFrom("q"), negZero},
 		withIface{1, 2}, withIface{nil, 2}, withIface{"s", 2}, myStringer(3), complex(0, negZero), complex(0, 0),
-		unsafe.Pointer(&ptrTargets[2]), unsafe.Pointer(nil), uintptr(7), struct{}{}, [0]int{}}
+		unsafe.Pointer(&ptrTargets[2]), unsafe.Pointer(nil), uintptr(7), struct{}{}, [0]int{},
+		// pointer-shaped composite values are stored directly in the interface word too
+		ptrBox{&ptrTargets[3]}, ptrBox{&ptrTargets[3]}, ptrBox{nil}, [1]*int{&ptrTargets[3]}, [1]*int{nil}, [1]*int{&ptrTargets[1]},
+		struct{ C chan int }{chans[2]}, struct{ C chan int }{nil}}
 }
 
 func mutatePointees(r *simrt.RNG) {
@@ -171,6 +176,9 @@ func init() {
 	addKeyType("struct withIface", func() []withIface {
 		return []withIface{{}, {1, 2}, {int(1), 2}, {int64(1), 2}, {"s", 2}, {strFrom("s"), 2}, {nil, 2}, {negZero, 1}, {0.0, 1}, {&ptrTargets[0], 0}, {pad{1, 2}, 0}, {padWithGarbage(1, 2, 9), 0}}
 	})
+	addKeyType("struct ptrBox", func() []ptrBox { return []ptrBox{{}, {&ptrTargets[0]}, {&ptrTargets[0]}, {&ptrTargets[3]}} })
+	addKeyType("[1]*int", func() [][1]*int { return [][1]*int{{}, {&ptrTargets[0]}, {&ptrTargets[0]}, {&ptrTargets[3]}} })
+	localKeyTypes()
 	addKeyType("any", anyPool)
 	addKeyType("fmt.Stringer", func() []fmt.Stringer {
 		return []fmt.Stringer{nil, myStringer(1), myStringer(1), myStringer(2), time.Duration(1), time.Duration(1), time.Duration(2)}
@@ -373,7 +381,11 @@ func genKeys(seed uint64, tier string) *Case {
 	sp := &SpecialCase{Kind: "keys", Seed: seed}
 	sp.KeyType = r.Intn(len(keyCatalogue))
 	if r.Bool(0.25) {
-		sp.KeyType = len(keyCatalogue) - 3 // the any catalogue gets a larger share
+		for i, kt := range keyCatalogue {
+			if kt.name == "any" {
+				sp.KeyType = i // the any catalogue gets a larger share
+			}
+		}
 	}
 	switch r.Intn(4) {
 	case 0:
@@ -386,7 +398,7 @@ func genKeys(seed uint64, tier string) *Case {
 		sp.HashMode, sp.CollideN = "collide", 2+r.Intn(3)
 	}
 	switch keyCatalogue[sp.KeyType].name {
-	case "*int", "unsafe.Pointer", "chan int", "struct withIface", "any":
+	case "*int", "unsafe.Pointer", "chan int", "struct withIface", "any", "struct ptrBox", "[1]*int":
 		// hashes of pointer-bearing keys depend on addresses: the bucket layout
 		// is not the same in another process
 		sp.NonReplayable = true
@@ -558,4 +570,19 @@ func firstLines(s string, n int) string {
 		ls = ls[:n]
 	}
 	return strings.Join(ls, "\n")
+}
+
+// Two distinct key types that print the same name ("main.localKey"): a hasher
+// that identifies types by name would hash one of them with the other's layout.
+func localKeyTypes() {
+	func() {
+		type localKey struct{ Hi, Lo uint64 }
+		addKeyType("localKey{Hi,Lo}", func() []localKey { return []localKey{{}, {1, 2}, {2, 1}, {1, 2}, {1 << 63, 0}} })
+	}()
+	func() {
+		type localKey struct{ Name string }
+		addKeyType("localKey{Name}", func() []localKey {
+			return []localKey{{}, {"a"}, {strFrom("a")}, {"abc"}, {strFrom("ab", "c")}, {"b"}}
+		})
+	}()
 }
